@@ -1,6 +1,7 @@
 import UF.Compose2.ShortcutMask
 import UF.Compose2.ParsePattern
 import UF.Compose2.RegexShortcutSound
+import UF.Proofs.RegexQuirkLits
 import UF.Props.C05
 import UF.Props.C03
 import UF.Model.RequestNew
@@ -148,9 +149,9 @@ theorem c05_full_regex (ext : Ext) (r : NetRule) (q : Request) (parts : List Byt
         simp only [parseRE, hci, Bool.false_eq_true, if_false] at hparse
         refine ⟨r0, ?_, hs.symm⟩
         intro t' ht'
-        rw [hparse] at ht'
-        cases ht'
-        exact litsCovered_refl r0
+        -- `r0` is Go's tree (`goTree`) of the textbook tree `t'`: it requires what `t'` requires
+        rw [ht', Option.bind_some] at hparse
+        exact litsCovered_goTree hparse
 
 /-- C05 from the rule TEXT for mask rules — no oracle and no hypothesis about the rule record: whatever
     `NewNetworkRule` accepts with a pattern that is not a `/regex/` matches the same requests with and
@@ -225,9 +226,11 @@ theorem c05_regex_text (p : Bytes) (mc : Bool) (u sc : Bytes) (hre : UF.isRegexP
                   Option.some.injEq] at hparse
                 rw [← hparse]; exact FoldRel.foldCase tree
               | true =>
+                -- `$match-case`: the compiled expression is Go's tree of the text, the textbook
+                -- tree up to the fold flags `parser.factor` mixes up (group P3)
                 simp only [if_true, parseRE, hnoci, Bool.false_eq_true, if_false, hp,
-                  Option.some.injEq] at hparse
-                rw [← hparse]; exact FoldRel.refl tree
+                  Option.bind_some] at hparse
+                exact FoldRel.goTree hparse
             exact hasSub_trans (goReq_search hrel hs.symm l hl) hsub
 
 /-- C05 from the rule TEXT for `/regex/` rules over the complete model (`parseNetRuleM`: no oracle but
